@@ -8,7 +8,7 @@
        unstructuring of its value at the annotated type, in attribute order (unstr_class_spec).
    The full statement [C02_statement] over the relation Build is kept below; until its generic proof is finished the
    constructor stream decides it on the real classes (every structure and message, every alternative, shapes). *)
-From LSP Require Import Base MM Sem SemThy Image ImageThy Names.
+From LSP Require Import Base MM Sem SemThy Image ImageThy Names Denote.
 From Gen Require Import MMData PkgData.
 
 Theorem C02_image : W_img mm Sg alias_objects plain_classes = true.
@@ -39,9 +39,18 @@ Proof.
   destruct (mapM (ufield rec vals) fds) as [kvs| |]; cbn in H; try discriminate. inversion H. eauto.
 Qed.
 
+(* (4) serialisation of ANY well-typed object — however it was built, constructors included — succeeds and yields its
+   denotation [den]: attributes under their wire names unless (omit-if-default and equal to the default), enum members as
+   their value, tuples and lists as arrays (generic theorem Denote.unstr_typed, by induction on the typing derivation) *)
+Theorem C02_well_typed_objects_serialise_to_their_denotation : forall P o, has_type Sg P o -> exists m, unstr Sg m (Some P) o = Ok (den Sg o).
+Proof. exact (unstr_typed Sg). Qed.
+Theorem C02_fuel_monotone : forall n m ot v j, n <= m -> unstr Sg n ot v = Ok j -> unstr Sg m ot v = Ok j.
+Proof. exact (unstr_mono_le Sg). Qed.
+
 Example C02_example : camel "text_document" = "textDocument" /\ length (classes Sg) >= 100.
 Proof. split; [reflexivity | vm_compute; repeat constructor]. Qed.
 
 Print Assumptions C02_kwargs_camel_to_wire.
 Print Assumptions C02_wire_is_metamodel_name.
 Print Assumptions C02_unstr_class_spec.
+Print Assumptions C02_well_typed_objects_serialise_to_their_denotation.
